@@ -4,6 +4,7 @@ import LassoProofs.Lemmas.ConcArenaSolo
 import LassoProofs.Lemmas.ConcArenaSeq
 import LassoModel.Extracted
 import LassoProofs.Lemmas.Config
+import LassoProofs.Lemmas.Release
 /-
   C05 — concurrent storage integrity: exclusive regions, no torn strings, no lost block, ordering.
 
@@ -131,6 +132,20 @@ theorem blocks_wellformed (sched : List (Nat × Bool)) :
     ∀ b ∈ (R cap max programs sched).buckets, b.len ≤ b.cap ∧ Tiled b.len b.claims :=
   let hi := reach_inv cap max programs sched
   ⟨hi.ids, fun b hb => ⟨hi.fit b hb, hi.tiled b hb⟩⟩
+
+/-- Release at the end of a concurrent run: once all threads are done, dropping the arena runs the walk of
+`impl Drop for AtomicBucketList` (interpreted from its regenerated statements, `Lemmas/Release.lean`) over the list
+as the racing pushes left it - it frees every node of that list exactly once; by `quiescent_no_block_lost` these
+are all the blocks ever allocated, and their identities are distinct: nothing leaks, nothing is freed twice,
+whatever the schedule was. -/
+theorem quiescent_drop_releases_every_block_once (sched : List (Nat × Bool)) (hq : quiescent (R cap max programs sched) = true) :
+    runListDrop Extracted.listDropEffects ((R cap max programs sched).buckets.map (·.cap)) =
+      some (List.range (R cap max programs sched).buckets.length) ∧
+    ((R cap max programs sched).buckets.map (·.id)).Nodup ∧
+    ∀ i, i < (R cap max programs sched).nextId → ∃ b ∈ (R cap max programs sched).buckets, b.id = i := by
+  refine ⟨?_, (blocks_wellformed cap max programs sched).1, quiescent_no_block_lost cap max programs sched hq⟩
+  have h := (walkAccepted_spec (effects := Extracted.listDropEffects) (by decide)).1 ((R cap max programs sched).buckets.map (·.cap))
+  simpa using h
 
 end
 
